@@ -53,7 +53,7 @@ var refEncrKeyLen = []int{16, 24, 32}
 var refPrfLen = []int{16, 20, 32}
 
 type saKeys struct {
-	st                         suite
+	st                        suite
 	d, ai, ar, ei, er, pi, pr []byte
 }
 
